@@ -38,8 +38,17 @@ characters the path sanitiser rewrites or strips (blank, ' + , non-ASCII); the
 root is replaced by the placeholder exactly AS GIVEN, string by string, so a
 workspace / script that is not under the given root shows up as a difference.
 
-The hash seeds are chosen by a pre-computation in sub-processes (tie names AND
-the resource-key sets the launcher code iterates): among the
+Case key "via": "conductor" -- staged by Conductor.initialize and polled by
+Conductor.monitor_study (sleep stubbed); status.csv is read where the Conductor
+writes it.  Case key "real": true -- a REAL (non-dry) run against a scripted
+scheduler adapter (every job FINISHED one poll after submission, answers in the
+order queried); `polls` is then the sequence of SUBMITTED instance names; these
+cases are compared across processes only.  One process's root is reached through
+a symbolic link, another is spelled with ".." and "//".
+
+The hash seeds are chosen by a pre-computation in sub-processes (tie names, the
+resource-key sets the launcher code iterates, the in_progress sets of the
+real-run witnesses): among the
 candidates, seeds that iterate the two-element sets of the "tie" parameter names
 ({"temp","TEMP"}, names equal up to case / underscores / digit suffix) in BOTH
 orders are always included.
@@ -74,10 +83,16 @@ TIE_PAIRS = [["temp", "TEMP"], ["dt", "DT"], ["size", "SIZE"], ["Temp", "temp"],
 # output roots differ in depth and spelling; the last two components are the
 # same everywhere because write_status prints the last two components of a
 # workspace path (a component that sanitises to nothing would otherwise show
-# the root's own directory name: C10's K1, not a C11 matter).  The LAST process
+# the root's own directory name: C10's K1, not a C11 matter).  "@LINK" is a root
+# reached through a symbolic link, "@DOTS" one spelled with ".." and "//"
+# (make_root).  The LAST process
 # re-uses the FIRST process's hash seed under another root, so that a
 # difference caused by the root alone is recognisable as such.
-VARIANTS = ["p0", "q1/deeper.dir-1", "my runs/study b", "it's+a,b/\u00fc\u00e4 x", "rr/d"]
+VARIANTS = ["p0", "@LINK", "my runs/it's+a,b/\u00fc\u00e4 x", "@DOTS", "q1/deeper.dir-1"]
+# instance-name sets of the real-run witnesses (corpus/C11/real_run_*.json): the in_progress
+# set of the poll in which their jobs finish together, in insertion (= submission) order
+NAME_SETS = [["sim_SIZE.10", "sim_SIZE.20", "sim_SIZE.30"], ["sim_SIZE.10", "sim_SIZE.20"],
+             ["gen_N.1", "gen_N.2", "run_TEMP.300.temp.1", "run_TEMP.400.temp.2"]]
 # the StudyStep run keys handed to get_parallelize_command as **kwargs (nodes/procs
 # popped), in dict order; custom keys are appended in the order the case lists them
 RUN_KWARGS = ["cmd", "depends", "pre", "post", "restart", "gpus", "cores per task", "walltime", "reservation"]
@@ -95,59 +110,172 @@ Definition L_ (l : list str) : str := join [10%N] l.
 # ----------------------------------------------------------------------------
 # worker (runs in the fresh interpreter)
 # ----------------------------------------------------------------------------
+class _StopPolling(Exception):
+    pass
+
+
+class Sched:
+    """state of the scripted scheduler of the "real run" mode (one case at a time)"""
+    next_job = 1
+    submitted = []       # instance names in submission order
+    queries = []         # job ids as queried, poll by poll
+
+
+def register_scripted():
+    """A scheduler adapter registered through the plug-in registry: scripts are
+    written by the local adapter's writer, every step is SCHEDULED, submit hands
+    out consecutive job ids, check_jobs reports every queried job FINISHED -- for
+    exactly the ids queried, in the order queried (so each job finishes one poll
+    after its submission)."""
+    from maestrowf.interfaces import ScriptAdapterFactory
+    if "c11sched" in ScriptAdapterFactory.factories:
+        return
+    from maestrowf.abstracts.enums import JobStatusCode, State, SubmissionCode, CancelCode
+    from maestrowf.interfaces.script import SubmissionRecord, CancellationRecord
+    from maestrowf.interfaces.script.localscriptadapter import LocalScriptAdapter
+
+    class Scripted(LocalScriptAdapter):
+        key = "c11sched"
+
+        def __init__(self, **kwargs):
+            kwargs.pop("type", None)
+            super(Scripted, self).__init__(**kwargs)
+
+        def _write_script(self, ws_path, step):
+            _, sp, rp = super(Scripted, self)._write_script(ws_path, step)
+            return True, sp, rp
+
+        def submit(self, step, path, cwd, job_map=None, env=None):
+            jid = str(Sched.next_job)
+            Sched.next_job += 1
+            Sched.submitted.append(str(step.real_name))
+            return SubmissionRecord(SubmissionCode.OK, 0, jid)
+
+        def check_jobs(self, joblist):
+            Sched.queries.append([str(j) for j in joblist])
+            if not joblist:
+                return JobStatusCode.NOJOBS, {}
+            return JobStatusCode.OK, {j: State.FINISHED for j in joblist}
+
+        def cancel_jobs(self, joblist):
+            return CancellationRecord(CancelCode.OK, 0)
+    ScriptAdapterFactory.factories["c11sched"] = Scripted
+
+
+def batch_block(case):
+    """the adapter settings of the case; the flux adapter is made constructible
+    without the flux python module (its constructor stops at its last statement)"""
+    if case.get("real"):
+        register_scripted()
+        return {"type": "c11sched"}
+    kind = case.get("adapter") or "local"
+    if kind == "local":
+        return {"type": "local"}
+    if kind == "flux":
+        from maestrowf.interfaces import ScriptAdapterFactory
+        import maestrowf.interfaces.script.fluxscriptadapter as m_flux
+        Flux = m_flux.FluxScriptAdapter
+        if not getattr(ScriptAdapterFactory.factories.get("flux"), "_c11_shim", False):
+            class FluxShim(Flux):
+                _c11_shim = True
+
+                def __init__(self, **kw):
+                    try:
+                        super(FluxShim, self).__init__(**kw)
+                    except (NameError, ImportError, AttributeError):
+                        self._broker_version = "0.0.0"
+            ScriptAdapterFactory.factories["flux"] = FluxShim
+    return {"type": kind, "host": "h", "bank": "b", "queue": "q", "nodes": 2}
+
+
 def stage_flags(case, root):
-    """c08.stage_real with the case's hash_ws / use_tmp flags (dry run)."""
+    """Build, configure and stage the study the way maestro.run_study does, with
+    the case's flags; with "via": "conductor" the staging is done by
+    Conductor.initialize (stage + set_adapter + store_metadata).  Returns
+    (observable, study, dag, conductor or None, status directory)."""
     c08.quiet()
-    os.makedirs(os.path.dirname(root), exist_ok=True)
+    obs_root = root.rstrip("/") or "/"
+    os.makedirs(os.path.dirname(obs_root), exist_ok=True)
     try:
         study = c08.build_study(case, root)
     except Exception as e:
-        return {"ok": False, "err": 1, "exc": type(e).__name__, "msg": str(e)[:200]}, None, None
+        return {"ok": False, "err": 1, "exc": type(e).__name__, "msg": str(e)[:200]}, None, None, None, root
+    cond, sdir = None, root
     try:
         study.setup_workspace()
         study.configure_study(throttle=0, submission_attempts=1, restart_limit=case["rlimit"],
                               use_tmp=bool(case.get("usetmp")), hash_ws=bool(case.get("hashws")),
-                              dry_run=True)
+                              dry_run=not case.get("real"))
         study.setup_environment()
-        _, dag = study.stage()
+        if case.get("via") == "conductor":
+            from maestrowf.conductor import Conductor
+            cond = Conductor(study)
+            cond.initialize(batch_block(case), sleeptime=1)
+            dag, sdir = cond._exec_dag, cond._pkl_path
+        else:
+            _, dag = study.stage()
+            dag.set_adapter(batch_block(case))
     except Exception as e:
-        return {"ok": False, "err": 2, "exc": type(e).__name__, "msg": str(e)[:200]}, study, None
+        return {"ok": False, "err": 2, "exc": type(e).__name__, "msg": str(e)[:200]}, study, None, None, root
     try:
-        return c08.observe_dag(case, study, dag, root), study, dag
+        return c08.observe_dag(case, study, dag, obs_root), study, dag, cond, sdir
     except Exception as e:
-        return {"ok": False, "err": 3, "exc": type(e).__name__, "msg": str(e)[:200]}, study, dag
+        return {"ok": False, "err": 3, "exc": type(e).__name__, "msg": str(e)[:200]}, study, dag, cond, sdir
 
 
 def expand_once(case, root):
-    """Stage + dry run under `root`; returns the serialisation (root replaced)."""
+    """Stage + run under `root` (dry run, or a real run against the scripted
+    scheduler); returns the serialisation (root replaced)."""
     ser = {"obs": None, "polls": [], "status": [], "scripts": [], "exc": ""}
-    o, study, dag = stage_flags(case, root)
+    Sched.next_job, Sched.submitted, Sched.queries = 1, [], []
+    o, study, dag, cond, sdir = stage_flags(case, root)
     ser["obs"] = o
     if o.get("ok") and dag is not None:
         from maestrowf.abstracts.interfaces.scriptadapter import ScriptAdapter
         from maestrowf.abstracts.enums import StudyStatus
         calls = []
         orig = ScriptAdapter.__dict__["write_script"]
+        real = bool(case.get("real"))
+
+        def launched():          # what counts as a launch: a submission (real run) / a script (dry run)
+            return len(Sched.submitted) if real else len(calls)
 
         def write_script(self_, ws_path, step):
             r = orig(self_, ws_path, step)
             calls.append((str(step.real_name), r[1], r[2]))
             return r
         ScriptAdapter.write_script = write_script
+        cm, saved_sleep = None, None
         try:
-            dag.set_adapter(batch_block(case))
-            status, polls, cap = StudyStatus.RUNNING, 0, len(o["nodes"]) + 3
-            while status == StudyStatus.RUNNING and polls < cap:
-                n0 = len(calls)
-                status = dag.execute_ready_steps()
-                ser["polls"].append([c[0] for c in calls[n0:]])
-                polls += 1
+            cap = 2 * len(o["nodes"]) + 4
+            marks = [0]
+            if cond is not None:
+                import maestrowf.conductor as cm
+
+                def hook(_t):
+                    marks.append(launched())
+                    if len(marks) > cap:
+                        raise _StopPolling()
+                saved_sleep, cm.sleep = cm.sleep, hook
+                try:
+                    status = cond.monitor_study()
+                except _StopPolling:
+                    status = StudyStatus.RUNNING
+                marks.append(launched())
+            else:
+                status, polls = StudyStatus.RUNNING, 0
+                while status == StudyStatus.RUNNING and polls < cap:
+                    status = dag.execute_ready_steps()
+                    marks.append(launched())
+                    polls += 1
+                dag.write_status(sdir)
+            seq = list(Sched.submitted) if real else [c[0] for c in calls]
+            ser["polls"] = [seq[a:b] for a, b in zip(marks, marks[1:])]
             while ser["polls"] and not ser["polls"][-1]:
                 ser["polls"].pop()
             if status != StudyStatus.FINISHED:
                 ser["exc"] = "STATUS:%s" % getattr(status, "name", status)
-            dag.write_status(root)
-            with open(os.path.join(root, "status.csv")) as f:
+            with open(os.path.join(sdir, "status.csv")) as f:
                 lines = f.read().split("\n")
             # the writer does not quote: a step name / Params entry may contain commas (a
             # parameter named "a,b" is legal); the name is recognised as the longest node
@@ -174,7 +302,9 @@ def expand_once(case, root):
             ser["exc"] = "EXC:%s" % type(e).__name__
         finally:
             ScriptAdapter.write_script = orig
-    return replace_root(ser, root)
+            if cm is not None and saved_sleep is not None:
+                cm.sleep = saved_sleep
+    return replace_root(ser, root.rstrip("/") or "/")
 
 
 def replace_root(x, root, placeholder="/R"):
@@ -188,27 +318,17 @@ def replace_root(x, root, placeholder="/R"):
     return x
 
 
-def batch_block(case):
-    """the adapter settings of the case; the flux adapter is made constructible
-    without the flux python module (its constructor stops at its last statement)"""
-    kind = case.get("adapter") or "local"
-    if kind == "local":
-        return {"type": "local"}
-    if kind == "flux":
-        from maestrowf.interfaces import ScriptAdapterFactory
-        import maestrowf.interfaces.script.fluxscriptadapter as m_flux
-        Flux = m_flux.FluxScriptAdapter
-        if not getattr(ScriptAdapterFactory.factories.get("flux"), "_c11_shim", False):
-            class FluxShim(Flux):
-                _c11_shim = True
-
-                def __init__(self, **kw):
-                    try:
-                        super(FluxShim, self).__init__(**kw)
-                    except (NameError, ImportError, AttributeError):
-                        self._broker_version = "0.0.0"
-            ScriptAdapterFactory.factories["flux"] = FluxShim
-    return {"type": kind, "host": "h", "bank": "b", "queue": "q", "nodes": 2}
+def make_root(top, variant):
+    """the output root of one process, spelled as the variant says"""
+    if variant == "@LINK":          # reached through a symbolic link
+        tgt = os.path.join(top, "real target", "fs")
+        os.makedirs(tgt)
+        os.symlink(tgt, os.path.join(top, "lnk"))
+        return os.path.join(top, "lnk", "study", "st", "out")
+    if variant == "@DOTS":          # ".." and a double slash (no trailing slash: the root string itself
+        os.makedirs(os.path.join(top, "dd", "x"))      # is what $(_source.workspace) / OUTPUT_PATH expand to)
+        return top + "/dd/x/../y//z/st/out"
+    return os.path.join(top, variant, "st", "out")
 
 
 def worker_main(inp, outp):
@@ -224,8 +344,8 @@ def worker_main(inp, outp):
     import tempfile
     for i, case in enumerate(d["cases"]):
         top = os.path.join(d["base"], "%d" % i)
-        root = os.path.join(top, d["variant"], "st", "out")
         os.makedirs(os.path.join(top, "tmp"), exist_ok=True)
+        root = make_root(top, d["variant"])
         tempfile.tempdir = os.path.join(top, "tmp")        # use_tmp: mkdtemp below the case's scratch
         try:
             res.append(expand_once(case, root))
@@ -242,7 +362,7 @@ def worker_main(inp, outp):
 # ----------------------------------------------------------------------------
 PROBE = """
 import json, sys
-ties, keysets, res = json.loads(sys.argv[1])
+ties, keysets, res, namesets = json.loads(sys.argv[1])
 out = []
 for a, b in ties:
     s = set(); s.add(a); s.add(b)
@@ -252,6 +372,11 @@ for ks in keysets:          # slurmscriptadapter.get_parallelize_command
     for i, a in enumerate(res):
         for b in res[i + 1:]:
             out.append(order.index(a) < order.index(b) if a in order and b in order else None)
+for ns in namesets:         # ExecutionGraph.in_progress: a set filled by add() in submission order
+    s = set()
+    for x in ns:
+        s.add(x)
+    out.append(" ".join(str(ns.index(x)) for x in s))
 print(json.dumps(out))
 """
 
@@ -263,6 +388,8 @@ def probe_items():
         for i, a in enumerate(RES_KEYS):
             for b in RES_KEYS[i + 1:]:
                 items.append(("keyset%d:%s<%s" % (n, a, b), (a, b) == ("cores per task", "gpus")))
+    for ns in NAME_SETS:
+        items.append(("in_progress{%s}" % ",".join(ns), True))
     return items
 
 
@@ -273,7 +400,7 @@ def pick_seeds(n):
     both orders (for every key-set variant if possible); beyond that as many
     tie pairs / resource-key pairs as possible are ordered both ways."""
     import itertools
-    arg = json.dumps([TIE_PAIRS, KEYSETS, RES_KEYS])
+    arg = json.dumps([TIE_PAIRS, KEYSETS, RES_KEYS, NAME_SETS])
     items = probe_items()
 
     def probe(seed):
@@ -293,7 +420,7 @@ def pick_seeds(n):
 
     def both(chosen, only_mandatory=False):
         return [k for k, (_, m) in enumerate(items) if (m or not only_mandatory)
-                and len({orders[s][k] for s in chosen} - {None}) == 2]
+                and len({orders[s][k] for s in chosen} - {None}) >= 2]
     first = cands[0]
     best, best_score = None, None
     for rest in itertools.combinations(cands[1:], n - 1):
@@ -565,11 +692,11 @@ def gen_sched(rng):
 
 def cross_only(case):
     """cases the Gallina model does not describe: processes against each other only"""
-    return bool(case.get("hashws")) or (case.get("adapter") or "local") != "local"
+    return bool(case.get("hashws")) or bool(case.get("real")) or (case.get("adapter") or "local") != "local"
 
 
 def case_key(case):
-    return json.dumps({k: case.get(k) for k in ("rlimit", "params", "steps", "hashws", "usetmp", "adapter")},
+    return json.dumps({k: case.get(k) for k in ("rlimit", "params", "steps", "hashws", "usetmp", "adapter", "via", "real")},
                       sort_keys=True, default=str)
 
 
@@ -587,12 +714,16 @@ def generate(rng, tier):
     gen += [gen_wide(rng) for _ in range(n_wide)]
     gen += [gen_ties(rng) for _ in range(n_ties)]
     gen += [gen_sched(rng) for _ in range(n_sched)]
-    for c in gen:                      # the flags: --hashws / --usetmp
+    for c in gen:                      # the flags: --hashws / --usetmp / through the Conductor / real run
         r = rng.random()
         if r < 0.25:
             c["hashws"] = True
         if rng.random() < 0.15:
             c["usetmp"] = True
+        if rng.random() < 0.35:
+            c["via"] = "conductor"
+        if c["stream"] != "sched" and rng.random() < 0.3:
+            c["real"] = True
     return cases + gen
 
 
@@ -690,8 +821,9 @@ def run(ck):
         mp = max_parents(x)
         ck.count(case_key(case), nontrivial=bool(o.get("ok")) and (mp >= 2 or max_params(x) >= 2))
         hist["streams"][case["stream"]] = hist["streams"].get(case["stream"], 0) + 1
-        fl = "hashws=%d,usetmp=%d,adapter=%s" % (bool(case.get("hashws")), bool(case.get("usetmp")),
-                                                  case.get("adapter") or "local")
+        fl = "hashws=%d,usetmp=%d,adapter=%s,via=%s,run=%s" % (
+            bool(case.get("hashws")), bool(case.get("usetmp")), case.get("adapter") or "local",
+            case.get("via") or "direct", "real" if case.get("real") else "dry")
         hist["flags"][fl] = hist["flags"].get(fl, 0) + 1
         if o.get("ok"):
             b = min(len(o["nodes"]) - 1, 16)
@@ -727,7 +859,12 @@ def run(ck):
                       "+ the 'sched' stream (slurm/lsf/flux batch block, steps with nodes/procs and optional resource keys "
                       "cores per task/gpus/walltime/reservation/exclusive/qos/... around $(LAUNCHER): script texts with "
                       "scheduler headers and launcher command lines, compared across processes only); "
-                      "25%% of the generated cases are staged with hash_ws=True and 15%% with use_tmp=True; the output roots "
+                      "25%% of the generated cases are staged with hash_ws=True and 15%% with use_tmp=True; 35%% are staged and "
+                      "polled by the Conductor (initialize + monitor_study, sleep stubbed; status.csv where the Conductor "
+                      "writes it); 30%% are REAL runs against a scripted scheduler adapter registered in the plug-in registry "
+                      "(every step scheduled, every job reported FINISHED one poll after submission, answers in the order "
+                      "queried): the sequence of submitted instance names over all polls is compared across processes only; "
+                      "one root is reached through a symbolic link, one is spelled with '..' and '//'; the output roots "
                       "contain blanks, quote, plus, comma and non-ASCII characters and are replaced exactly as given; every "
                       "specification is staged and dry-run (local adapter, scripts and status.csv written) in %d fresh "
                       "interpreters = PYTHONHASHSEED %s (chosen by a sub-process pre-computation so that the 2-element sets "
@@ -749,6 +886,10 @@ def search(ck):
     for k, c in enumerate(cases):
         if k % 3 == 0:
             c["hashws"] = True
+        if k % 2 == 0:
+            c["via"] = "conductor"
+        if k % 4 == 1 and c["stream"] != "sched":
+            c["real"] = True
     seeds, _ = pick_seeds(4)
     procs = processes_for(seeds)
     sers, problems = run_processes(cases, procs, "run-c11-search")
